@@ -73,8 +73,44 @@ def _cells_of(a):
   return None, {}
 
 
-def classify_restore_failure(out):
-  """Root cause of an undo that runs but does not restore, from the bundle's own stored/undo lists."""
+def _update_values(a):
+  """{(col, row): value} written by an Update action repr."""
+  if a[0] == 'UpdateRecord':
+    return {(c, a[2]): v for c, v in a[3].items()}
+  if a[0] == 'BulkUpdateRecord':
+    return {(c, r): vs[k] for c, vs in a[3].items() for k, r in enumerate(a[2])}
+  return {}
+
+
+def _restore_carries_originals(undo, positions, t, c, before, after_undo):
+  """The known defect (R2) is an ORDERING defect: the restore of the conversion delta carries the original values but is
+  replayed while the column still has the new type.  So: every cell that differs after the undo sits in column (t, c),
+  and for each of them the restore in the undo list names the value the cell had before the bundle."""
+  if before is None or after_undo is None:
+    return False
+  if set(before) != set(after_undo):
+    return False
+  restored = {}
+  for i in positions:
+    restored.update(_update_values(undo[i]))
+  n = 0
+  for tab in before:
+    if before[tab]['ids'] != after_undo[tab]['ids'] or set(before[tab]['cols']) != set(after_undo[tab]['cols']):
+      return False
+    for col in before[tab]['cols']:
+      for rid, x, y in zip(before[tab]['ids'], before[tab]['cols'][col], after_undo[tab]['cols'][col]):
+        if G.canon(x) != G.canon(y):
+          if (tab, col) != (t, c) or (c, rid) not in restored:
+            return False
+          if G.canon(G.norm(restored[(c, rid)])) != G.canon(x):
+            return False
+          n += 1
+  return n > 0
+
+
+def classify_restore_failure(out, before=None, after_undo=None):
+  """Root cause of an undo that runs but does not restore, from the bundle's own stored/undo lists (and, to keep the
+  known kinds narrow, the documents before the bundle and after the undo)."""
   stored = G.reprs(out.stored)
   undo = G.reprs(out.undo)
   # (R2) data -> formula ModifyColumn with a type change: the conversion delta is restored BEFORE the ModifyColumn undo
@@ -83,7 +119,8 @@ def classify_restore_failure(out):
       t, c = a[1], a[2]
       pos_mod = [i for i, u in enumerate(undo) if u[0] == 'ModifyColumn' and u[1] == t and u[2] == c]
       pos_upd = [i for i, u in enumerate(undo) if _cells_of(u)[0] == t and c in _cells_of(u)[1]]
-      if pos_mod and pos_upd and max(pos_upd) > min(pos_mod):
+      if pos_mod and pos_upd and max(pos_upd) > min(pos_mod) and \
+         _restore_carries_originals(undo, [i for i in pos_upd if i > min(pos_mod)], t, c, before, after_undo):
         return 'undo-does-not-restore:to-formula-type-change'
   # (R3) a restore in the leading run of updates of the undo list (front-inserted restores live there) that puts back
   #      a value which a doc action of this very bundle wrote into that cell, for a row the bundle removed
@@ -157,7 +194,7 @@ def undo_redo_oracle(e, out, before, after, before_schema):
     return res               # a cyclic formula program shows up: values are history dependent (C18/C05), not C01/C03
   if G.canon(u) != G.canon(before):      # canon (JSON text) also tells True from 1, which == does not
     d = strict_diff(before, u, limit=12)
-    kind = classify_restore_failure(out)
+    kind = classify_restore_failure(out, before, u)
     if kind == 'undo-does-not-restore' and only_decoded_errors(d):
       kind = 'undo-does-not-restore:error-cell-decoded'
     elif kind == 'undo-does-not-restore' and only_trigger_cells_of_readded_rows(e, out, before, u):
@@ -794,11 +831,79 @@ def rename_gone_search(prop, found, limit):
   return found
 
 
+# the K1 glue of useractions.doModifyColumn that no trace can show when it is skipped: the hand-off of the conversion
+# changes to the summary, and the per-column flush for "not to_formula"
+GLUE_PINS = [
+  ('changes', 'self._engine.out_actions.summary.add_changes(table_id, col_id, changes)'),
+  ('not to_formula', None),      # body: pop the ModifyColumn undo, try: flush_calc_changes_for_column, finally: push it back
+]
+
+
+def check_glue_pins():
+  """[] if doModifyColumn still hands EVERY non-empty list of conversion changes to the summary (`if changes:` with
+  exactly that call) and flushes the column exactly when `not to_formula`; otherwise descriptions of what differs."""
+  import ast
+  with open(os.path.join(core.GRIST, 'useractions.py')) as f:
+    tree = ast.parse(f.read())
+  fn = next((n for n in ast.walk(tree) if isinstance(n, ast.FunctionDef) and n.name == 'doModifyColumn'), None)
+  if fn is None:
+    return ['useractions.doModifyColumn not found']
+  bad = []
+  adds = [n for n in ast.walk(fn) if isinstance(n, ast.If) and 'summary.add_changes(' in ast.unparse(n)]
+  if len(adds) != 1 or ast.unparse(adds[0].test) != GLUE_PINS[0][0] or adds[0].orelse or \
+     [ast.unparse(x) for x in adds[0].body] != [GLUE_PINS[0][1]]:
+    bad.append('the hand-off of the conversion changes is not `if changes: %s` (found: %s)'
+               % (GLUE_PINS[0][1], '; '.join(ast.unparse(n).replace('\n', ' ')[:160] for n in adds) or 'none'))
+  fl = [n for n in ast.walk(fn) if isinstance(n, ast.If) and 'flush_calc_changes_for_column(' in ast.unparse(n)]
+  if len(fl) != 1 or ast.unparse(fl[0].test) != GLUE_PINS[1][0] or fl[0].orelse:
+    bad.append('the per-column flush is not guarded by `if not to_formula:` exactly once')
+  return bad
+
+
+TYPECHANGE_DOC = [
+  [['AddTable', 'T', [{'id': 'A', 'type': 'Int', 'isFormula': False}, {'id': 'D', 'type': 'Text', 'isFormula': False},
+                      {'id': 'N', 'type': 'Numeric', 'isFormula': False}, {'id': 'Y', 'type': 'Any', 'isFormula': False},
+                      {'id': 'I', 'type': 'Int', 'isFormula': False}]]],
+  [['BulkAddRecord', 'T', [None] * 4, {'A': [1, 2, 3, 4], 'D': ['5', 'n/a', '7.5', '30'], 'N': [1.0, 2.5, 0.0, 30.0],
+                                       'Y': ['5', 7.5, True, 'x'], 'I': [1, 0, 2, 30]}]],
+]
+
+
+def typechange_cases():
+  """ModifyColumn setting isFormula AND type together, on columns holding values that the new type's convert() alters."""
+  out = []
+  for col, typ in [('D', 'Int'), ('D', 'Numeric'), ('D', 'Bool'), ('N', 'Int'), ('N', 'Text'), ('N', 'Bool'),
+                   ('Y', 'Int'), ('Y', 'Text'), ('I', 'Bool'), ('I', 'Text'), ('I', 'Numeric')]:
+    for k, f in enumerate(('$A', '$A * 10')):
+      if k == 0 or (col, typ) in (('D', 'Int'), ('N', 'Int'), ('I', 'Bool')):
+        out.append(('%s -> %s formula %s' % (col, typ, f), TYPECHANGE_DOC,
+                    [['ModifyColumn', 'T', col, {'isFormula': True, 'type': typ, 'formula': f}]]))
+  out.append(('D -> Int formula, then an edit elsewhere', TYPECHANGE_DOC,
+              [['ModifyColumn', 'T', 'D', {'isFormula': True, 'type': 'Int', 'formula': '$A'}], ['UpdateRecord', 'T', 1, {'A': 9}]]))
+  return out
+
+
+def typechange_search(prop, found, limit):
+  for name, hist, b in typechange_cases():
+    try:
+      issues, _ = check_bundle(build(hist), copy.deepcopy(b))
+    except Exception:
+      continue
+    for p_, kind, what in issues:
+      if p_ == prop and not any(f[0] == kind for f in found):
+        found.append((kind, '[template: isFormula and type changed together; %s] %s' % (name, what),
+                      {'history': hist, 'bundle': b, 'kind': kind}))
+        if len(found) >= limit:
+          return found
+  return found
+
+
 def template_search(prop, limit=6):
   """Fixed templates, run on every check (a few seconds): counter trigger formulas read by a formula column, and -- without
   any preceding edit -- ReplaceTableData with overlapping / partial / disjoint ids and AddColumn-with-formula / update /
   (rename) / RemoveColumn bundles on the small documents of focused_search."""
   found = rename_gone_search(prop, [], limit)
+  typechange_search(prop, found, limit)
   for f in focused_search({'ReplaceTableData', 'RemoveColumn'}, prop, limit=limit, light=True):
     if len(found) < limit and not any(g[0] == f[0] for g in found):
       found.append(f)
@@ -953,12 +1058,19 @@ def _traced_run(ctx, n_hist, nb):
                          'what': '; '.join(strict_diff(start_snapshot, end)),
                          'replay': {'history': copy.deepcopy(history), 'whole_history': True}})
     # fixed template bundles (rename + row gone after a recalculation, ...): their traces join the tie
-    for name, hist, b in rename_gone_cases():
+    for name, hist, b in rename_gone_cases() + typechange_cases():
       try:
         e = build(hist)
+        before = G.snapshot(e)
+        before_schema = G.engine_schema(e)
         tr = k1trace.record_bundle(e, copy.deepcopy(b))
-        tr.pop('out')
+        out = tr.pop('out')
+        after = G.snapshot(e)
         terms.append(k1trace.trace_term(I, tr))
+        for p_, kind, what in undo_redo_oracle(e, out, before, after, before_schema):
+          issues.append({'prop': p_, 'kind': kind, 'what': '[template: %s] %s' % (name, what), 'trace_index': len(terms) - 1,
+                         'replay': {'history': copy.deepcopy(hist), 'bundle': b}})
+          stats['oracle:' + kind] += 1
         metas.append({'bundle': b, 'history': copy.deepcopy(hist), 'kinds': sorted({evt[0] if evt[0] != 'doc' else evt[1][0] for evt in tr['events']}),
                       'pending': pending_structure(tr['events']), 'n_events': len(tr['events']), 'template': name,
                       'shape': [evt[0] if evt[0] != 'doc' else evt[1][0] for evt in tr['events']]})
